@@ -1398,4 +1398,184 @@ theorem sortByTime_stable (t : Nat) (l : List (Nat × DMsg)) :
     simp only [List.filter_cons]
     rw [ih]
 
+/-! ### UTF-8: the validity check accepts the encoding of every Unicode scalar value -/
+
+theorem u8_lt (k n : Nat) (hk : k < 256) (hn : n < 256) : (UInt8.ofNat k < UInt8.ofNat n) ↔ k < n := by
+  rw [UInt8.lt_iff_toNat_lt, u8_toNat k hk, u8_toNat n hn]
+
+theorem u8_le (k n : Nat) (hk : k < 256) (hn : n < 256) : (UInt8.ofNat k ≤ UInt8.ofNat n) ↔ k ≤ n := by
+  rw [UInt8.le_iff_toNat_le, u8_toNat k hk, u8_toNat n hn]
+
+theorem u8_eq (k n : Nat) (hk : k < 256) (hn : n < 256) : (UInt8.ofNat k = UInt8.ofNat n) ↔ k = n := by
+  constructor
+  · intro h
+    have := congrArg UInt8.toNat h
+    rwa [u8_toNat k hk, u8_toNat n hn] at this
+  · intro h; rw [h]
+
+theorem u8_beq (k n : Nat) (hk : k < 256) (hn : n < 256) : (UInt8.ofNat k == UInt8.ofNat n) = decide (k = n) := by
+  by_cases h : k = n
+  · subst h; simp
+  · have : ¬ UInt8.ofNat k = UInt8.ofNat n := fun e => h ((u8_eq k n hk hn).mp e)
+    simp [h, this]
+
+theorem isCont_ofNat (b : Nat) (h1 : 0x80 ≤ b) (h2 : b ≤ 0xBF) : isCont (UInt8.ofNat b) = true := by
+  unfold isCont
+  have a1 : (UInt8.ofNat 0x80 ≤ UInt8.ofNat b) := (u8_le _ _ (by omega) (by omega)).mpr h1
+  have a2 : (UInt8.ofNat b ≤ UInt8.ofNat 0xBF) := (u8_le _ _ (by omega) (by omega)).mpr h2
+  simp only [Bool.and_eq_true, decide_eq_true_eq]
+  exact ⟨a1, a2⟩
+
+theorem valid2 (a b : Nat) (ha1 : 0xC2 ≤ a) (ha2 : a ≤ 0xDF) (hb1 : 0x80 ≤ b) (hb2 : b ≤ 0xBF) (rest : Bytes) :
+    validUtf8 (UInt8.ofNat a :: UInt8.ofNat b :: rest) = validUtf8 rest := by
+  conv => lhs; unfold validUtf8
+  have n1 : ¬ (UInt8.ofNat a < (0x80 : UInt8)) := fun h => by
+    have := (u8_lt a 0x80 (by omega) (by omega)).mp h; omega
+  have a1 : ((0xC2 : UInt8) ≤ UInt8.ofNat a) := (u8_le 0xC2 a (by omega) (by omega)).mpr ha1
+  have a2 : (UInt8.ofNat a ≤ (0xDF : UInt8)) := (u8_le a 0xDF (by omega) (by omega)).mpr ha2
+  simp only [n1, if_false, a1, a2, decide_true, Bool.and_self, if_true, isCont_ofNat b hb1 hb2, Bool.true_and]
+
+theorem valid3 (a b c : Nat) (ha1 : 0xE0 ≤ a) (ha2 : a ≤ 0xEF) (hb1 : 0x80 ≤ b) (hb2 : b ≤ 0xBF)
+    (hc1 : 0x80 ≤ c) (hc2 : c ≤ 0xBF) (hE0 : a = 0xE0 → 0xA0 ≤ b) (hED : a = 0xED → b ≤ 0x9F) (rest : Bytes) :
+    validUtf8 (UInt8.ofNat a :: UInt8.ofNat b :: UInt8.ofNat c :: rest) = validUtf8 rest := by
+  conv => lhs; unfold validUtf8
+  have n1 : ¬ (UInt8.ofNat a < (0x80 : UInt8)) := fun h => by
+    have := (u8_lt a 0x80 (by omega) (by omega)).mp h; omega
+  have n2 : ¬ (UInt8.ofNat a ≤ (0xDF : UInt8)) := fun h => by
+    have := (u8_le a 0xDF (by omega) (by omega)).mp h; omega
+  have hcb := isCont_ofNat b hb1 hb2
+  have hcc := isCont_ofNat c hc1 hc2
+  simp only [n1, if_false, n2, decide_false, Bool.and_false, Bool.false_eq_true]
+  have q0 : (UInt8.ofNat a == (0xE0 : UInt8)) = decide (a = 0xE0) := u8_beq a 0xE0 (by omega) (by omega)
+  have qE : (UInt8.ofNat a == (0xEE : UInt8)) = decide (a = 0xEE) := u8_beq a 0xEE (by omega) (by omega)
+  have qF : (UInt8.ofNat a == (0xEF : UInt8)) = decide (a = 0xEF) := u8_beq a 0xEF (by omega) (by omega)
+  have qD : (UInt8.ofNat a == (0xED : UInt8)) = decide (a = 0xED) := u8_beq a 0xED (by omega) (by omega)
+  simp only [q0, qE, qF, qD]
+  by_cases h0 : a = 0xE0
+  · have b1 : ((0xA0 : UInt8) ≤ UInt8.ofNat b) := (u8_le 0xA0 b (by omega) (by omega)).mpr (hE0 h0)
+    have b2 : (UInt8.ofNat b ≤ (0xBF : UInt8)) := (u8_le b 0xBF (by omega) (by omega)).mpr hb2
+    simp only [h0, decide_true, if_true, b1, b2, Bool.and_self, hcc, Bool.true_and]
+  · simp only [h0, decide_false, Bool.false_eq_true, if_false]
+    by_cases hD : a = 0xED
+    · subst hD
+      have b1 : ((0x80 : UInt8) ≤ UInt8.ofNat b) := (u8_le 0x80 b (by omega) (by omega)).mpr hb1
+      have b2 : (UInt8.ofNat b ≤ (0x9F : UInt8)) := (u8_le b 0x9F (by omega) (by omega)).mpr (hED rfl)
+      have m1 : (decide ((0xE1 : UInt8) ≤ UInt8.ofNat 0xED) && decide (UInt8.ofNat 0xED ≤ (0xEC : UInt8))
+          || decide (0xED = 0xEE) || decide (0xED = 0xEF)) = false := by decide
+      simp only [m1, Bool.false_eq_true, if_false, decide_true, if_true, b1, b2, Bool.and_self, hcc, Bool.true_and]
+    · have hcond : (decide ((0xE1 : UInt8) ≤ UInt8.ofNat a) && decide (UInt8.ofNat a ≤ (0xEC : UInt8))
+          || decide (a = 0xEE) || decide (a = 0xEF)) = true := by
+        by_cases hl : a ≤ 0xEC
+        · have x1 : ((0xE1 : UInt8) ≤ UInt8.ofNat a) := (u8_le 0xE1 a (by omega) (by omega)).mpr (by omega)
+          have x2 : (UInt8.ofNat a ≤ (0xEC : UInt8)) := (u8_le a 0xEC (by omega) (by omega)).mpr hl
+          simp [x1, x2]
+        · have : a = 0xEE ∨ a = 0xEF := by omega
+          rcases this with h | h <;> simp [h]
+      simp only [hcond, if_true, hcb, hcc, Bool.true_and]
+
+theorem valid4 (a b c d : Nat) (ha1 : 0xF0 ≤ a) (ha2 : a ≤ 0xF4) (hb1 : 0x80 ≤ b) (hb2 : b ≤ 0xBF)
+    (hc1 : 0x80 ≤ c) (hc2 : c ≤ 0xBF) (hd1 : 0x80 ≤ d) (hd2 : d ≤ 0xBF)
+    (hF0 : a = 0xF0 → 0x90 ≤ b) (hF4 : a = 0xF4 → b ≤ 0x8F) (rest : Bytes) :
+    validUtf8 (UInt8.ofNat a :: UInt8.ofNat b :: UInt8.ofNat c :: UInt8.ofNat d :: rest) = validUtf8 rest := by
+  conv => lhs; unfold validUtf8
+  have hcb := isCont_ofNat b hb1 hb2
+  have hcc := isCont_ofNat c hc1 hc2
+  have hcd := isCont_ofNat d hd1 hd2
+  have b1' : ((0x80 : UInt8) ≤ UInt8.ofNat b) := (u8_le 0x80 b (by omega) (by omega)).mpr hb1
+  have b2' : (UInt8.ofNat b ≤ (0xBF : UInt8)) := (u8_le b 0xBF (by omega) (by omega)).mpr hb2
+  have hcases : a = 0xF0 ∨ a = 0xF1 ∨ a = 0xF2 ∨ a = 0xF3 ∨ a = 0xF4 := by omega
+  rcases hcases with h | h | h | h | h
+  · subst h
+    have b1 : ((0x90 : UInt8) ≤ UInt8.ofNat b) := (u8_le 0x90 b (by omega) (by omega)).mpr (hF0 rfl)
+    have c0 : (UInt8.ofNat 0xF0 < (0x80 : UInt8)) = False := by decide
+    have c1 : (decide ((0xC2 : UInt8) ≤ UInt8.ofNat 0xF0) && decide (UInt8.ofNat 0xF0 ≤ (0xDF : UInt8))) = false := by decide
+    have c2 : (UInt8.ofNat 0xF0 == (0xE0 : UInt8)) = false := by decide
+    have c3 : (decide ((0xE1 : UInt8) ≤ UInt8.ofNat 0xF0) && decide (UInt8.ofNat 0xF0 ≤ (0xEC : UInt8))
+        || UInt8.ofNat 0xF0 == (0xEE : UInt8) || UInt8.ofNat 0xF0 == (0xEF : UInt8)) = false := by decide
+    have c4 : (UInt8.ofNat 0xF0 == (0xED : UInt8)) = false := by decide
+    have c5 : (UInt8.ofNat 0xF0 == (0xF0 : UInt8)) = true := by decide
+    simp only [c0, if_false, c1, c2, c3, c4, c5, Bool.false_eq_true, if_true, b1, b2', decide_true, Bool.and_self,
+      hcc, hcd, Bool.true_and]
+  · subst h
+    have c0 : (UInt8.ofNat 0xF1 < (0x80 : UInt8)) = False := by decide
+    have c1 : (decide ((0xC2 : UInt8) ≤ UInt8.ofNat 0xF1) && decide (UInt8.ofNat 0xF1 ≤ (0xDF : UInt8))) = false := by decide
+    have c2 : (UInt8.ofNat 0xF1 == (0xE0 : UInt8)) = false := by decide
+    have c3 : (decide ((0xE1 : UInt8) ≤ UInt8.ofNat 0xF1) && decide (UInt8.ofNat 0xF1 ≤ (0xEC : UInt8))
+        || UInt8.ofNat 0xF1 == (0xEE : UInt8) || UInt8.ofNat 0xF1 == (0xEF : UInt8)) = false := by decide
+    have c4 : (UInt8.ofNat 0xF1 == (0xED : UInt8)) = false := by decide
+    have c5 : (UInt8.ofNat 0xF1 == (0xF0 : UInt8)) = false := by decide
+    have c6 : (decide ((0xF1 : UInt8) ≤ UInt8.ofNat 0xF1) && decide (UInt8.ofNat 0xF1 ≤ (0xF3 : UInt8))) = true := by decide
+    simp only [c0, if_false, c1, c2, c3, c4, c5, c6, Bool.false_eq_true, if_true, hcb, hcc, hcd, Bool.true_and]
+  · subst h
+    have c0 : (UInt8.ofNat 0xF2 < (0x80 : UInt8)) = False := by decide
+    have c1 : (decide ((0xC2 : UInt8) ≤ UInt8.ofNat 0xF2) && decide (UInt8.ofNat 0xF2 ≤ (0xDF : UInt8))) = false := by decide
+    have c2 : (UInt8.ofNat 0xF2 == (0xE0 : UInt8)) = false := by decide
+    have c3 : (decide ((0xE1 : UInt8) ≤ UInt8.ofNat 0xF2) && decide (UInt8.ofNat 0xF2 ≤ (0xEC : UInt8))
+        || UInt8.ofNat 0xF2 == (0xEE : UInt8) || UInt8.ofNat 0xF2 == (0xEF : UInt8)) = false := by decide
+    have c4 : (UInt8.ofNat 0xF2 == (0xED : UInt8)) = false := by decide
+    have c5 : (UInt8.ofNat 0xF2 == (0xF0 : UInt8)) = false := by decide
+    have c6 : (decide ((0xF1 : UInt8) ≤ UInt8.ofNat 0xF2) && decide (UInt8.ofNat 0xF2 ≤ (0xF3 : UInt8))) = true := by decide
+    simp only [c0, if_false, c1, c2, c3, c4, c5, c6, Bool.false_eq_true, if_true, hcb, hcc, hcd, Bool.true_and]
+  · subst h
+    have c0 : (UInt8.ofNat 0xF3 < (0x80 : UInt8)) = False := by decide
+    have c1 : (decide ((0xC2 : UInt8) ≤ UInt8.ofNat 0xF3) && decide (UInt8.ofNat 0xF3 ≤ (0xDF : UInt8))) = false := by decide
+    have c2 : (UInt8.ofNat 0xF3 == (0xE0 : UInt8)) = false := by decide
+    have c3 : (decide ((0xE1 : UInt8) ≤ UInt8.ofNat 0xF3) && decide (UInt8.ofNat 0xF3 ≤ (0xEC : UInt8))
+        || UInt8.ofNat 0xF3 == (0xEE : UInt8) || UInt8.ofNat 0xF3 == (0xEF : UInt8)) = false := by decide
+    have c4 : (UInt8.ofNat 0xF3 == (0xED : UInt8)) = false := by decide
+    have c5 : (UInt8.ofNat 0xF3 == (0xF0 : UInt8)) = false := by decide
+    have c6 : (decide ((0xF1 : UInt8) ≤ UInt8.ofNat 0xF3) && decide (UInt8.ofNat 0xF3 ≤ (0xF3 : UInt8))) = true := by decide
+    simp only [c0, if_false, c1, c2, c3, c4, c5, c6, Bool.false_eq_true, if_true, hcb, hcc, hcd, Bool.true_and]
+  · subst h
+    have b2 : (UInt8.ofNat b ≤ (0x8F : UInt8)) := (u8_le b 0x8F (by omega) (by omega)).mpr (hF4 rfl)
+    have c0 : (UInt8.ofNat 0xF4 < (0x80 : UInt8)) = False := by decide
+    have c1 : (decide ((0xC2 : UInt8) ≤ UInt8.ofNat 0xF4) && decide (UInt8.ofNat 0xF4 ≤ (0xDF : UInt8))) = false := by decide
+    have c2 : (UInt8.ofNat 0xF4 == (0xE0 : UInt8)) = false := by decide
+    have c3 : (decide ((0xE1 : UInt8) ≤ UInt8.ofNat 0xF4) && decide (UInt8.ofNat 0xF4 ≤ (0xEC : UInt8))
+        || UInt8.ofNat 0xF4 == (0xEE : UInt8) || UInt8.ofNat 0xF4 == (0xEF : UInt8)) = false := by decide
+    have c4 : (UInt8.ofNat 0xF4 == (0xED : UInt8)) = false := by decide
+    have c5 : (UInt8.ofNat 0xF4 == (0xF0 : UInt8)) = false := by decide
+    have c6 : (decide ((0xF1 : UInt8) ≤ UInt8.ofNat 0xF4) && decide (UInt8.ofNat 0xF4 ≤ (0xF3 : UInt8))) = false := by decide
+    have c7 : (UInt8.ofNat 0xF4 == (0xF4 : UInt8)) = true := by decide
+    simp only [c0, if_false, c1, c2, c3, c4, c5, c6, c7, Bool.false_eq_true, if_true, b1', b2, decide_true,
+      Bool.and_self, hcc, hcd, Bool.true_and]
+
+theorem char_valid_nat (c : Char) : c.val.toNat < 0xD800 ∨ (0xDFFF < c.val.toNat ∧ c.val.toNat < 0x110000) := by
+  have := c.valid
+  simpa [UInt32.isValidChar, Nat.isValidChar] using this
+
+/-- the UTF-8 encoding of any Unicode scalar value passes the validity check of the decoder model -/
+theorem validUtf8_encodeChar (c : Char) (rest : Bytes) :
+    validUtf8 (String.utf8EncodeChar c ++ rest) = validUtf8 rest := by
+  have hv := char_valid_nat c
+  unfold String.utf8EncodeChar
+  generalize c.val.toNat = v at hv
+  simp only
+  split
+  · rename_i h1
+    simp only [List.cons_append, List.nil_append]
+    conv => lhs; unfold validUtf8
+    have : (UInt8.ofNat v < (0x80 : UInt8)) := (u8_lt v 0x80 (by omega) (by omega)).mpr (by omega)
+    simp only [this, if_true]
+  · split
+    · rename_i h1 h2
+      simp only [List.cons_append, List.nil_append]
+      exact valid2 _ _ (by omega) (by omega) (by omega) (by omega) rest
+    · split
+      · rename_i h1 h2 h3
+        simp only [List.cons_append, List.nil_append]
+        exact valid3 _ _ _ (by omega) (by omega) (by omega) (by omega) (by omega) (by omega)
+          (by omega) (by omega) rest
+      · rename_i h1 h2 h3
+        simp only [List.cons_append, List.nil_append]
+        exact valid4 _ _ _ _ (by omega) (by omega) (by omega) (by omega) (by omega) (by omega) (by omega) (by omega)
+          (by omega) (by omega) rest
+
+theorem validUtf8_chars : ∀ (l : List Char) (rest : Bytes),
+    validUtf8 (l.flatMap String.utf8EncodeChar ++ rest) = validUtf8 rest
+  | [], _ => rfl
+  | c :: l, rest => by
+    simp only [List.flatMap_cons, List.append_assoc]
+    rw [validUtf8_encodeChar, validUtf8_chars l rest]
+
 end Sc3Verif.C06
